@@ -407,16 +407,17 @@ pub fn run(tier: Tier) -> i32 {
             local.count("long-chains");
             local.nontrivial(&format!("chain{n}:{}", leaf_class(&t)));
             if let Err((stage, d)) = print_parse(&t) {
-                local.fail(&format!("{stage}:long-chain"), json!({"filter": f_json(&t)}), d.chars().take(600).collect());
+                local.fail(&format!("{stage}:{}", leaf_class(&t)), json!({"filter": f_json(&t)}), d.chars().take(600).collect());
+                continue;
             }
             // the reference printer's canonical text parses to the tree as well
             let text = print_canonical(&t);
             match guarded(|| Filter::try_from(text.as_str())) {
-                Err(pn) => local.fail("parse-panic:long-chain", json!({"filter": f_json(&t)}), pn),
-                Ok(Err(e)) => local.fail("canonical-text-rejected:long-chain", json!({"filter": f_json(&t)}), format!("{e}; {} groups/leaves", n)),
+                Err(pn) => local.fail(&format!("canonical-text-panic:{}", leaf_class(&t)), json!({"filter": f_json(&t), "canonical": true}), pn),
+                Ok(Err(e)) => local.fail(&format!("canonical-text-rejected:{}", leaf_class(&t)), json!({"filter": f_json(&t), "canonical": true}), format!("{e}; {} groups/leaves", n)),
                 Ok(Ok(parsed)) => {
                     if tree_key(&parsed) != tree_key(&to_lib_filter(&t)) {
-                        local.fail("canonical-text-parses-to-other-tree:long-chain", json!({"filter": f_json(&t)}), format!("{n} groups/leaves"));
+                        local.fail(&format!("canonical-text-parses-to-other-tree:{}", leaf_class(&t)), json!({"filter": f_json(&t), "canonical": true}), format!("{n} groups/leaves"));
                     }
                 }
             }
@@ -444,6 +445,20 @@ pub fn replay(case: &J) -> Verdict {
             t.dedup();
             (format!("{s}[{}]:{}", t.join("+"), leaf_class(&f)), d)
         });
+    }
+    if case["canonical"] == true {
+        let text = print_canonical(&f);
+        return match guarded(|| Filter::try_from(text.as_str())) {
+            Err(pn) => Err((format!("canonical-text-panic:{}", leaf_class(&f)), pn)),
+            Ok(Err(e)) => Err((format!("canonical-text-rejected:{}", leaf_class(&f)), e.to_string())),
+            Ok(Ok(parsed)) => {
+                if tree_key(&parsed) != tree_key(&to_lib_filter(&f)) {
+                    Err((format!("canonical-text-parses-to-other-tree:{}", leaf_class(&f)), "other tree".into()))
+                } else {
+                    Ok(())
+                }
+            }
+        };
     }
     print_parse(&f).map_err(|(s, d)| (format!("{s}:{}", leaf_class(&f)), d))
 }
